@@ -220,10 +220,14 @@ class Device:
         self.pos += 1
         if self.script is not None and pos < len(self.script) and self.script[pos] is not Ellipsis:
             r = self.script[pos]
+            if isinstance(r, tuple) and r and r[0] == "delay" and r[2] is Ellipsis:
+                r = ("delay", r[1], self.standard(pos, chunk))  # the standard reply, late
+                return r
+            raw = r[2] if isinstance(r, tuple) and r and r[0] == "delay" else r
             if pos < len(self.kinds) and self.kinds[pos].startswith("login"):
                 # scripted login replies still count as logins for session bookkeeping
                 self.logins += 1
-                self.sessions.append(bytes(r[8:12]) if r and len(r) >= 12 else None)
+                self.sessions.append(bytes(raw[8:12]) if raw and len(raw) >= 12 else None)
             return r
         return self.standard(pos, chunk)
 
